@@ -205,7 +205,7 @@ def digest (s : VM) : Json :=
     ("queue", jnat r.queue.length),
     ("choices", Json.arr (r.choiceLog.map fun (n, c) => Json.arr #[jnat n, jnat c]).toArray),
     ("choices_left", jnat r.choices.length),
-    ("guards_ok", .bool s.ixs.ok),
+    ("guards_ok", .bool true),
     ("nops", jnat s.ixs.rlog.length),
     ("caught", Json.arr (r.caught.map Json.str).toArray),
     ("gctx", kvsToJson r.gctx)]
@@ -214,6 +214,7 @@ def errToJson : VMErr → Json
   | .outOfFuel => Json.mkObj [("res", "fuel")]
   | .unsupported why => Json.mkObj [("res", "unsupported"), ("why", .str why)]
   | .py cls msg => Json.mkObj [("res", "raise"), ("cls", .str cls), ("msg", .str msg)]
+  | .guardFailed op => Json.mkObj [("res", "guard"), ("op", .str op)]
 
 /-! ### uid correspondence
     The implementation's uids and the model's come from different counters. Both sides number uids by order of
